@@ -311,16 +311,7 @@ def has_text(expr):
     return any(t.startswith("[") and t[1:].replace(" ", "").lower().startswith("text()") for t in model_tokens(expr))
 
 
-def text_step(c, detail=None):
-    """C19-c: the expression contains a text() condition: the key of the result carries the condition text, which item
-    access reads with its own (case-sensitive, '=='/'!=' only) condition syntax.  Only the 'resolves' part of the
-    evaluator is covered."""
-    if has_text(c.get("expr", "")) and (detail is None or detail.get("what") == "resolves"):
-        return "C19-c"
-    return None
-
-
-CLASSIFIERS = {"text_step": text_step}
+CLASSIFIERS = {}
 
 
 # --------------------------------------------------------------------------- C evaluators
@@ -386,11 +377,10 @@ def check_search(c):
             rg = core.call(lambda: o.get(k, _MISSING))
             if rg[0] != "ok" or rg[1] is not v:
                 return {"what": "resolves", "key": k, "get_gave": repr(rg)[:120], "findall_gave": repr(v)[:120]}
-            if not has_text(c["expr"]):
-                # C19_keys_spell: the key is "//" + groups name[i][j]...; plain Python indexing along them reaches the value
-                w = walk_key(o, k)
-                if w[0] != "ok" or w[1] is not v:
-                    return {"what": "spells", "key": k, "walk": repr(w)[:160], "findall_gave": repr(v)[:120]}
+            # C19_keys_spell: the key is "//" + groups name[i][j]...; plain Python indexing along them reaches the value
+            w = walk_key(o, k)
+            if w[0] != "ok" or w[1] is not v:
+                return {"what": "spells", "key": k, "walk": repr(w)[:160], "findall_gave": repr(v)[:120]}
         return None
     finally:
         reset_defaults()
@@ -571,7 +561,7 @@ def check_findfirst(c):
 
 
 EVALS = {"search": check_search, "exact": check_exact, "fanout": check_fanout, "descendant": check_descendant, "history": check_history, "findfirst": check_findfirst}
-KNOWN = {"search": text_step, "exact": None, "fanout": None, "descendant": None, "history": None, "findfirst": None}
+KNOWN = {"search": None, "exact": None, "fanout": None, "descendant": None, "history": None, "findfirst": None}
 
 
 def case_valid(ev, c):
@@ -719,7 +709,7 @@ def run(ctx):
 
     # ---- C: the statement on in-quantifier trees
     inq = [s for s in searches if s["inq"]]
-    ctx.evaluate("search", inq, check_search, in_known=text_step, nontrivial=lambda c: len(model_tokens(c["expr"])) > 1)
+    ctx.evaluate("search", inq, check_search, nontrivial=lambda c: len(model_tokens(c["expr"])) > 1)
     ctx.evaluate("findfirst", inq[:: 2], check_findfirst)
     rng = ctx.rng("exact")
     exact, fan, desc = [], [], []
